@@ -199,6 +199,13 @@ def r3_visited_on_representative(ctx, F):
                     # argument of the symmetry function is the successor / current state
                     av = noref(b.val(rc.args[0]))
                     wv = noref(b.val(cb.wb.args[1]))
+                    if av != wv:
+                        # the successor may have passed through `Option::filter(|s| within_boundary(s))`
+                        from taint import origin_vals
+                        avs = origin_vals(b, rc.args[0])
+                        wvs = origin_vals(b, cb.wb.args[1])
+                        if avs and avs == wvs and len(avs) == 1:
+                            av = wv = next(iter(avs))
                     ctx.check(av == wv, rule, 'representative-of-current-state', b,
                               good='the representative is taken of the state that was boundary-checked',
                               bad='%s: symmetry is applied to %r, not to the state under consideration %r' %
@@ -212,13 +219,23 @@ def r3_visited_on_representative(ctx, F):
                 pathv = noref(tv.key[3][1]) if tv.kind == 'agg' and len(tv.key[3]) > 1 else None
                 pushes = [c for c in b.calls_to('Vec::push') if pathv is not None and noref(b.val(c.args[0])) == pathv]
                 last = [c for c in pushes if not b.in_cycle(c.bb) or True]
-                from taint import origins
+                from taint import origins_under
                 nfp = 0
                 bad_src = None
-                for c in pushes:
-                    org = origins(b, c.args[1])
+                sym_sws = [sw for sw in b.switches if sw.kind == 'variant' and noref(sw.on).kind == 'arg' and
+                           noref(sw.on).key == cb.p_symmetry and not noref(sw.on).projs]
+                for c in [(c_, lab) for c_ in pushes for lab in ('Some', 'None')]:
+                    c, lab = c
+                    # `symmetry` does not change: judge the pushed fingerprint separately for the runs with
+                    # and without a symmetry function (two matches on it cannot disagree)
+                    live = b.reach_under([(sym_sws, lab)], [0]) if sym_sws else None
+                    org = origins_under(b, c.args[1], live)
+                    from taint import origin_vals as _ov
+
+                    def of_successor(o):
+                        return noref(b.val(o.args[0])) == sv or _ov(b, o.args[0]) == {sv}
                     if org and all(not isinstance(o, (str, tuple)) and o.is_('fingerprint') and
-                                   noref(b.val(o.args[0])) == sv for o in org):
+                                   of_successor(o) for o in org):
                         nfp += 1          # the successor's own fingerprint
                     elif org and all(isinstance(o, tuple) and o[0] == 'proj' and o[1].is_('Iterator::next')
                                      for o in org):
